@@ -97,7 +97,7 @@ func C15() *runner.Property {
 			r := rng.New(uint64(seed) ^ 0xC15)
 			k := 1
 			if tier == "thorough" {
-				k = 12
+				k = 200
 			}
 			var cs []runner.Case
 			for i := 0; i < 4*k; i++ {
